@@ -14,6 +14,7 @@
 import YashModel.Alias.Lemmas
 import YashModel.Alias.Refine
 import YashModel.Alias.Guard
+import YashModel.Alias.Blank
 namespace YashModel.Alias
 
 /-! ## ★ subst_terminates -/
@@ -380,16 +381,11 @@ example : ((lrun 1000 { T := [⟨"a", "alias a=REDEF\na second".toList, false⟩
 
 /-! ## ☆ Model = Spec (partial) -/
 
-/- Full statement (NOT proved):
-     theorem model_eq_spec (T : Table) (line : List Char) : substText T line = substLine T line
-   i.e. the origin-chain buffer of the implementation and the by-hand region-stack Spec produce the same
-   text for every table and line.  What is proved is the lock-step simulation: the two runs stay on the same
-   text, grammar position and token sequence as long as they choose the same alias for every word
-   (`Agree`: `mcand = hcand` at every step).  What is missing is that `Agree` always holds, i.e.
-   (i) "the name is on the origin chain of the token's first character" ⇔ "a region of that name contains the
-   token's first character", and (ii) `is_after_blank_ending_alias` (walk back over the consumed buffer) ⇔ the
-   Spec's forward flag `tb`.  Both are checked on every generated case by the differential run (Spec column),
-   and per instance by the kernel through `model_eq_spec_checked`. -/
+/- The full statement is `model_eq_spec` at the end of this section.  It is assembled from the lock-step
+   simulation (`model_eq_spec_partial`: same alias chosen at every step ⇒ same text), the agreement of the
+   recursion guards (`Guard.lean`: origin chains = names of the regions containing a character) and the agreement
+   of the two formulations of the blank rule (`Blank.lean`: `is_after_blank_ending_alias` walking back over the
+   consumed buffer = the Spec's forward flag).  The `_partial` theorems are kept: they are the steps. -/
 
 /-- ☆ (partial) If model and Spec choose the same alias at every step, the substituted texts are equal. -/
 theorem model_eq_spec_partial (T : Table) (line : List Char)
@@ -451,6 +447,34 @@ theorem model_eq_spec_noblank_partial (T : Table) (hT : ∀ a ∈ T, endsBlank a
     and a reserved word, none ending in a blank. -/
 example : ∀ a ∈ ([⟨"a", "b x".toList, false⟩, ⟨"b", "a".toList, false⟩, ⟨"c", "c c".toList, false⟩,
     ⟨"g", "if".toList, true⟩] : Table), endsBlank a.value = false := by decide +kernel
+
+/-- ★ `model_eq_spec`: for EVERY alias table and EVERY line the text produced by the implementation model (origin-
+    chain buffer, `substitute_alias` eligibility, `is_after_blank_ending_alias`) equals the text produced by
+    substitution by hand (`substLine`: plain text, stack of aliases being processed, forward blank flag) — no
+    hypothesis about the run. -/
+theorem model_eq_spec (T : Table) (line : List Char) : substText T line = substLine T line :=
+  model_eq_spec_partial T line (agree_always T line _)
+
+/-- the two formulations of the blank rule agree on every reachable pair of states (the former missing piece) -/
+theorem blank_rules_agree (T : Table) (line : List Char) (f : Nat) :
+    AgreeBlank T f (init line) ({ rest := line } : HState) := by
+  have key : ∀ (f : Nat) (s : MState) (h : HState), Sim s h → Corr h.active s.rest → BlankInv T s h →
+      AgreeBlank T f s h := by
+    intro f
+    induction f with
+    | zero => intro _ _ _ _ _; trivial
+    | succ f ih =>
+      intro s h hs hco hb
+      have hbl := blank_agree hs hco hb
+      have hc := cand_agree (T := T) hs hco hbl
+      refine ⟨hbl, ?_⟩
+      intro s' h' e1 e2
+      have hs' : Sim s' h' := by
+        rcases sim_step hs hc with ⟨e, _⟩ | ⟨s'', h'', e1', e2', hsim⟩
+        · rw [e] at e1; cases e1
+        · rw [e1'] at e1; rw [e2'] at e2; cases e1; cases e2; exact hsim
+      exact ih s' h' hs' (corr_step hs hco hc e1 e2) (blankinv_step hs hco hb hc e1 e2)
+  exact key f _ _ (sim_init line) (corr_init line) (blankinv_init T line)
 
 /-- non-vacuity: the hypothesis holds on a table with a cycle, blank-ending values, a quoted final blank and
     a non-ASCII value (byte length ≠ character length). -/
